@@ -14,6 +14,7 @@ import render, mast
 from mast import lit, var, bin_, un, par, idx
 
 PRE = ['TYPE RT', '  S AS STRING * 3', '  X AS INTEGER', 'END TYPE', 'TYPE RU', '  S AS STRING * 3', '  X AS INTEGER', 'END TYPE',
+       'TYPE RO', '  IN AS RT', '  Y AS INTEGER', 'END TYPE', 'DIM RB(3) AS RO',
        'A% = 2', 'B! = 3', 'S$ = "ab"', 'DIM AR%(5)', 'DIM AS$(3)',
        'DIM FX AS STRING * 4', 'DIM REC AS RT', 'DIM RE2 AS RU', 'DIM RE3 AS RT', 'DIM RA(3) AS RT', 'FX = "fx"', 'REC.S = "r"', 'REC.X = 4']
 POST = ['FUNCTION FN%(X%)', '  FN% = X% + 1', 'END FUNCTION', 'FUNCTION FS$(X$)', '  FS$ = X$ + "!"', 'END FUNCTION',
@@ -159,6 +160,11 @@ def positions(e):
     out.append(("lhs-subscript-ucall", ["AR%(" + tn + ") = 1"], {"k": "need", "e": idx("AR", "I", [fnn]), "kind": "any"}))
     out.append(("member-subscript-ucall", ["PRINT RA(" + tn + ").X"], {"k": "need", "e": idx("AR", "I", [fnn]), "kind": "any"}))
     out.append(("lhs-member-subscript-ucall", ["RA(" + tn + ").X = 1"], {"k": "need", "e": idx("AR", "I", [fnn]), "kind": "any"}))
+    # an element of an array of records with two and more member names behind it
+    out.append(("member2-subscript-ucall", ["PRINT RB(" + tn + ").IN.X"], {"k": "need", "e": idx("AR", "I", [fnn]), "kind": "any"}))
+    out.append(("lhs-member2-subscript-ucall", ["RB(" + tn + ").IN.X = 1"], {"k": "need", "e": idx("AR", "I", [fnn]), "kind": "any"}))
+    out.append(("member2-subscript-builtin", ["PRINT RB(LEN(UCASE$((" + t + ")))).IN.S"],
+                {"k": "need", "e": idx("AR", "I", [bcall("LEN", bcall("UCASE$", par(e)))]), "kind": "any"}))
     out.append(("case-ucall", ["SELECT CASE A%", "CASE 1 TO " + tn, "PRINT 1", "END SELECT"], {"k": "caseof", "subj": var("A", "I"), "test": fnn}))
     out.append(("for-step-ucall", ["FOR I% = 1 TO 2 STEP " + tn, "NEXT"], {"k": "need", "e": fnn, "kind": "n"}))
     out.append(("dim-bound-ucall", ["DIM DR%(" + tn + ")"], {"k": "need", "e": fnn, "kind": "n"}))
